@@ -252,6 +252,12 @@ def spec_map(files) -> dict[str, list[tuple[str, bytes]]]:
     return m
 
 
+def _pfx(pfx: str) -> str:
+    """The folded subfolder a member is restricted to ('' = unrestricted); './sub', 'sub/.', 'sub/' all mean 'sub'."""
+    p = os.path.normpath(fold(pfx)) if pfx else ''
+    return '' if p == '.' else p.rstrip('/')
+
+
 def spec_inside(folder: str, name: str) -> bool:
     """The file `name` is located inside `folder` (case and slash kind insignificant; '' = everything)."""
     f = fold(folder).rstrip('/')
@@ -404,7 +410,7 @@ def corr_chain(ck: Ck, root: str) -> None:
                 pfx = ''
                 if dirs and rng.random() < 0.6:
                     d = rng.choice(dirs)
-                    pfx = rng.choice([d, d, d + '/', _recase(rng, d), d.replace('/', '\\')])
+                    pfx = rng.choice([d, d, d + '/', _recase(rng, d), d.replace('/', '\\'), './' + d, d + '/.'])
                 members.append((kind, j, pfx, rng.random() < 0.3))
             ch = FileSystemChain()
             for kind, j, pfx, prio in members:
@@ -413,7 +419,7 @@ def corr_chain(ck: Ck, root: str) -> None:
             for kind, j, pfx, _ in members:
                 for nm, _b in rng.sample(sets[j], min(2, len(sets[j]))):
                     qs.append(nm)
-                    p = fold(pfx).rstrip('/')
+                    p = _pfx(pfx)
                     if p and fold(nm).startswith(p + '/'):
                         qs.append(_recase(rng, nm[len(p) + 1:]))
                         qs.append(nm[len(p) + 1:].replace('/', '\\'))
@@ -699,7 +705,7 @@ def check_chain(root: str, sets, members, rng: random.Random, stats=None) -> lis
         sms = [spec_map(s) for s in sets]
 
         def member_has(kind, j, pfx, q):
-            p = fold(pfx).rstrip('/')
+            p = _pfx(pfx)
             full = (p + '/' if p else '') + fold(q)
             if kind == 'raw':
                 # exact-case backend: only exact spellings (the generator asks raw members with exact names)
@@ -711,7 +717,7 @@ def check_chain(root: str, sets, members, rng: random.Random, stats=None) -> lis
         # queries: names relative to each member's prefix, in several spellings
         qs: list[str] = []
         for kind, j, pfx, _ in members:
-            p = fold(pfx).rstrip('/')
+            p = _pfx(pfx)
             for nm, _b in sets[j]:
                 if not p:
                     qs.append(nm)
@@ -747,7 +753,7 @@ def check_chain(root: str, sets, members, rng: random.Random, stats=None) -> lis
         else:
             folders = [('', 'root')]
             for kind, j, pfx, _ in members[:2]:
-                p = fold(pfx).rstrip('/')
+                p = _pfx(pfx)
                 for f, c in folder_candidates(rng, sets[j]):
                     if c in ('exact', 'case-variant', 'trailing-slash') and p and fold(f).startswith(p + '/'):
                         folders.append((f[len(p) + 1:], c))
@@ -757,7 +763,7 @@ def check_chain(root: str, sets, members, rng: random.Random, stats=None) -> lis
         for folder, fcls in folders:
             exp: dict[str, set] = {}
             for kind, j, pfx in order:
-                p = fold(pfx).rstrip('/')
+                p = _pfx(pfx)
                 names = [n for n, _ in sets[j]] if kind == 'raw' else list(sms[j])
                 for k in names:
                     fk = fold(k)
@@ -801,7 +807,7 @@ def check_chain(root: str, sets, members, rng: random.Random, stats=None) -> lis
             if rep_listed is not None:
                 exp_multi: list[str] = []
                 for kind, j, pfx in order:
-                    p = fold(pfx).rstrip('/')
+                    p = _pfx(pfx)
                     if kind == 'raw':
                         pe = pfx.rstrip('/')
                         fe = ((pe + '/' if pe else '') + folder.rstrip('/')).rstrip('/')
@@ -868,7 +874,7 @@ def gen_chain(rng: random.Random):
         pfx = ''
         if dirs and rng.random() < 0.6:
             d = rng.choice(dirs)
-            pfx = d if (kind == 'raw' or use_raw) else rng.choice([d, d, d + '/', _recase(rng, d), d.replace('/', '\\')])
+            pfx = d if (kind == 'raw' or use_raw) else rng.choice([d, d, d + '/', _recase(rng, d), d.replace('/', '\\'), './' + d, d + '/.'])
         members.append((kind, j, pfx, rng.random() < 0.3))
     return sets, members
 
@@ -1027,6 +1033,7 @@ def run(ck: Ck) -> None:
         if any_key(f'walk-{short}-'):
             ck.explain(f'instance:{short}_walk_sound_form')
             ck.explain(f'instance:{short}_walk_iterates_folded_dict')
+            ck.explain(f'instance:{short}_walk_compares_normalised_key')
         if any_key(f'walk-{short}-case-sensitive', f'walk-{short}-misses', f'walk-{short}-backslash'):
             ck.explain(f'instance:{short}_walk_no_exact_case_prefilter')
         if any_key(f'lookup-{short}-'):
